@@ -1208,6 +1208,21 @@ pub fn generate(check: &str, tier: &str, seed: u64) -> Scenario {
             }
             ns.net.accept_err_pm = *cr.pick(&[0, 0, 200]);
             ns.min_backoff_ms = *cr.pick(&[1, 500]);
+            // in a third of the runs the connection limit is below the number of clients: at the
+            // signal some clients are still queued behind the limit (never served), and the accept
+            // loop is waiting for a slot, not for a connection
+            {
+                let mut lr = Rng::stream(seed, "c16-limit");
+                if lr.one_in(3) {
+                    ns.max_conn = *lr.pick(&[1usize, 1, 2]);
+                    ns.net.backlog = *lr.pick(&[1usize, 2, 128]);
+                    // a client that is queued behind the limit never reaches a scripted trigger:
+                    // these runs always have the timed trigger as well
+                    if ns.shutdown_us.is_none() {
+                        ns.shutdown_us = Some(*lr.pick(&[500u64, 3000, 20_000, 200_000]));
+                    }
+                }
+            }
             let mut sim = SimParams::default();
             sim.num_cpus = *cr.pick(&[1, 2]);
             sim.strat = sched_strat(&mut cr);
